@@ -111,6 +111,7 @@ def collect(ctx, prop):
     if not quick:
         # depth-4 histories, sampled
         hists += [[rng.choice(ids) for _ in range(4)] for _ in range(3000)]
+    only_watch = prop != "C16"
     H = []
     probes = ["10.1.9.5", "10.1.0.5", "10.1.200.1", "10.2.0.5", "10.2.0.200", "10.2.9.9", "11.0.0.1", "192.168.1.1", "::ffff:10.1.9.9"]
     for n, h in enumerate(hists):
@@ -130,12 +131,17 @@ def collect(ctx, prop):
                   "probes": probes, "users": ["admin", "bob", "carol", "dave"]})
     # histories played through the file system (real fsnotify watcher + loader.NewLocalConfig, one-second debounce): they run
     # side by side, so they cost a few seconds in all
+    if only_watch:
+        H = []           # other properties (C18: what the watcher and the loader log) use the watched histories only
     nw = 16 if quick else 160
+    bad = [i for i in ids if not (P[i][1] and P[i][2])]
     for n in range(nw):
         docs = [rng.choice(good)] + [rng.choice(ids) if rng.random() < 0.75 else rng.choice(good) for _ in range(rng.choice([2, 3]))]
+        if only_watch:
+            docs[1] = bad[n % len(bad)]      # every kind of document that is refused, in turn
         H.append({"id": "w%d" % n, "fmt": "yaml", "via": "watch",
                   "docs": [{"doc": d, "text": text_of(P[d][0], "yaml"), "parses": P[d][1], "minok": P[d][2]} for d in docs],
-                  "probes": probes, "users": ["admin", "bob", "carol", "dave"]})
+                  "probes": probes, "users": ["admin", "bob", "carol", "dave"], "secrets": ["key-one", "key-two"]})
     hf = ctx.path("hist.ndjson")
     with open(hf, "w") as f:
         for h in H:
@@ -173,15 +179,6 @@ def run(ctx, prop):
 
 
 def replay(ctx, prop, obj):
-    # bursts: good documents loaded back to back while the update loop is held in its first build
-    good = [i for i in ids if P[i][1] and P[i][2]]
-    nb = 40 if quick else 600
-    for n in range(nb):
-        trip = [rng.choice(good) for _ in range(rng.choice([3, 3, 4]))]
-        fmt = rng.choice(["yaml", "json"])
-        H.append({"id": "b%d-%s" % (n, fmt), "fmt": fmt, "via": "unmarshal", "burst": True,
-                  "docs": [{"doc": d, "text": text_of(P[d][0], fmt), "parses": True, "minok": True} for d in trip],
-                  "probes": probes, "users": ["admin", "bob", "carol", "dave"]})
     hf = ctx.path("hist.ndjson")
     with open(hf, "w") as f:
         f.write(json.dumps(obj["history"]) + "\n")
